@@ -14,7 +14,7 @@ SEPS = ["\n", " ", "\t", "ab"]
 
 ACTIONS = ["New", "AppendStrA", "AppendTextA", "AssembleA", "JoinA", "SplitA", "DivideA", "IndexA", "SliceA", "PadA",
            "AlignA", "TruncateA", "RightCropA", "SetLengthA", "ExpandTabsA", "CopyA", "RstripA", "RstripEndA",
-           "RemoveSuffixA", "StylizeA", "CopyStylesA"]
+           "RemoveSuffixA", "StylizeA", "CopyStylesA", "SwapA"]
 
 
 def env():
